@@ -11,9 +11,16 @@ from mc.refmodel.lexer import LineIndex, RESERVED
 from mc import impl as I
 
 
-def tclass(tok):
+def tclass(tok, fine=False):
     if tok is None:
         return 'NONE'
+    if fine and tok.type == 'regex' and not tok.value.endswith('/') and \
+            tok.value[tok.value.rindex('/') + 1:] not in ('in', 'instanceof'):
+        # a regular expression literal that ends in flag letters is another
+        # neighbour than one that ends in its closing slash; flags spelled
+        # `in` / `instanceof` are what a flag-less literal fused with the
+        # operator looks like and keep the plain class
+        return 'REGEX-FLAGS'
     if tok.type == 'eof':
         return 'EOF'
     if tok.type == 'punct':
@@ -109,7 +116,7 @@ def ref_lex_all(text):
     return r
 
 
-def ctx_at(text, ref, offset):
+def ctx_at(text, ref, offset, fine=False):
     """(prev class, gap class, class at offset) from R2's token list."""
     toks = list(ref.tokens)
     extra = getattr(ref, 'tok', None)
@@ -119,11 +126,11 @@ def ctx_at(text, ref, offset):
     for t in toks:
         if t.start == offset:
             g = gap_class(text, prev.end, t.start) if prev else 'start'
-            return '%s %s %s' % (tclass(prev), g, tclass(t))
+            return '%s %s %s' % (tclass(prev, fine), g, tclass(t, fine))
         if t.start > offset:
             break
         prev = t
-    return '%s ? ?' % tclass(prev)
+    return '%s ? ?' % tclass(prev, fine)
 
 
 def impl_error_offset(text, msg):
